@@ -785,6 +785,12 @@ def r8(F, R):
     c20.span_close_bookkeeping(F, R)
 
 
+def r9_clone(F, R):
+    """The runner value and its queue handle are cloned when the run starts (`Basic` is `Clone`, `Features` is shared through its clones): every field of a clone comes from the same field."""
+    n = roles.check_clone_faithful_table(F, R, r"^runner::basic::(Basic|Features|Cli)$|^future::", "clone-faithful")
+    R.floor(3)
+
+
 RULES = [
     ("R1", r1, None),
     ("R2", r2, None),
@@ -794,4 +800,4 @@ RULES = [
     ("R6", r6, None),
     ("R7", r7, None),
     ("R8", r8, None),
-]
+ ("R9", r9_clone, None)]
